@@ -142,7 +142,7 @@ def main():
             else:
                 rbk, sbk = rc.CBlock.deserialize(bb), sc.CBlock.deserialize(VB(bb))
                 same(name + ':hash', rbk.GetHash(), raw(sbk.GetHash()))
-                same(name + ':root', rbk.calc_merkle_root(), raw(sbk.calc_merkle_root()))
+                same(name + ':root', _safe(lambda: rbk.calc_merkle_root()), _safe(lambda: raw(sbk.calc_merkle_root())))
                 same(name + ':ser', rbk.serialize(), raw(sbk.serialize()))
                 same(name + ':check', _safe(lambda: rc.CheckBlock(rbk, fCheckPoW=fCheckPoW, cur_time=cur_time)),
                      _safe(lambda: sc.CheckBlock(sbk, fCheckPoW=fCheckPoW, cur_time=cur_time)))
